@@ -9,6 +9,7 @@ import (
 	"sort"
 	"strings"
 	"sync"
+	"sync/atomic"
 
 	"github.com/ohler55/slip"
 )
@@ -19,10 +20,18 @@ type Aux struct {
 	reqCnt int
 	// Keys to the cache and methods is a join of then types separated by '|'.
 	cache         map[string]*slip.Method
+	epoch         int64 // value of classEpoch when the cache was last cleared
 	methods       map[string]*slip.Method
 	defaultKey    string
 	defaultCaller slip.Caller
 	moo           sync.Mutex
+}
+
+// classEpoch is incremented each time a class is registered.
+var classEpoch atomic.Int64
+
+func init() {
+	slip.AddClassHook("generic-cache", func(_ *slip.Package, _ string) { classEpoch.Add(1) })
 }
 
 // NewAux creates a new generic aux.
@@ -63,6 +72,12 @@ func (aux *Aux) Call(gf slip.Object, s *slip.Scope, args slip.List, depth int) s
 	}
 	// Any further argument checking gets tricky as optinal could be keywords
 	// depending on then method's forms.
+	if e := classEpoch.Load(); e != aux.epoch {
+		// A class was defined or redefined since the cache was filled so
+		// precedence lists may have changed.
+		aux.cache = map[string]*slip.Method{}
+		aux.epoch = e
+	}
 	key := buildSpecKey(args[:aux.reqCnt])
 	meth := aux.cache[key]
 	if meth == nil {
